@@ -164,7 +164,8 @@ def approveSwitchover (cfg : Cfg) (i : In) (sw : Switch) : Bool :=
 /-- the part of the iteration after the maintenance and switch-request handling -/
 def afterSwitch (cfg : Cfg) (i : In) (master : String) (light : Bool) (pre : List Step) : Out :=
   match i.dcs.get? master, i.cs.get? master with
-  | none, _ => { steps := pre ++ [.panic "clusterStateDcs[master]"], next := .manager, failedAt := i.failedAt }
+  -- the recorded master is not a registered host: logged, nothing done (a nil dereference before the fix: commit 7812210)
+  | none, _ => { steps := pre, next := .manager, failedAt := i.failedAt }
   | some md, csm =>
     let bad := !md.pingOk || md.isFsReadonly
     -- failure detection
